@@ -142,7 +142,7 @@ theorem send_core : ∀ (dt : DType F) (v : PVal F), dt.WF → Sendable dt v →
       refine ⟨.str (Base64.encode b), .bytes b, rfl, by simp [KindOK, hd], by simp [StrictJ], by simp, ?_, by simp [pyEq]⟩
       simp [importValue, blobImport, hd, Except.map]
   | .array elem lo hi, v, hwf, hv, hb => by
-    cases v <;> simp only [Sendable, InSetG] at hv <;> try exact hv.elim
+    cases v <;> simp only [Sendable] at hv <;> try exact hv.elim
     case tuple vs =>
       simp only [DType.WF] at hwf
       obtain ⟨hall, hlo, hhi⟩ := hv
@@ -161,7 +161,7 @@ theorem send_core : ∀ (dt : DType F) (v : PVal F), dt.WF → Sendable dt v →
         simp [importValue, h1', h2', hgs, Except.map]
       · simp [pyEq, hes]
   | .tuple elems, v, hwf, hv, hb => by
-    cases v <;> simp only [Sendable, InSetG] at hv <;> try exact hv.elim
+    cases v <;> simp only [Sendable] at hv <;> try exact hv.elim
     case tuple vs =>
       simp only [DType.WF] at hwf
       obtain ⟨js, vs', hfs, hps, hss, hl, hl2, hgs, hes⟩ := send_core_zip elems vs hwf.2 hv hb
@@ -173,7 +173,7 @@ theorem send_core : ∀ (dt : DType F) (v : PVal F), dt.WF → Sendable dt v →
         simp [importValue, this, hgs, Except.map]
       · simp [pyEq, hes]
   | .struct ms opt cl, v, hwf, hv, hb => by
-    cases v <;> simp only [Sendable, InSetG] at hv <;> try exact hv.elim
+    cases v <;> simp only [Sendable] at hv <;> try exact hv.elim
     case dict fields =>
       simp only [DType.WF] at hwf
       obtain ⟨hmem, hnd, hmand⟩ := hv
